@@ -41,6 +41,47 @@ class _Fault(Exception):
     """raised by a scripted sink"""
 
 
+class _KeyFault(KeyError):
+    """a subclass of an exception the router's own code might catch"""
+
+
+class _BaseFault(BaseException):
+    """not an Exception"""
+
+
+#: what a raising sink raises: the classes a router / decorator could be catching itself around the call - KeyError (dict
+#: lookups), AttributeError (fallback None), TypeError / ValueError (add_rule), StopIteration, LookupError / IndexError - a
+#: subclass of one, a plain Exception subclass and a BaseException; plus every builtin exception named in an `except` clause
+#: of the stream classes of the tree under test (read from the source on every run, see `fault_classes`)
+FAULTS = [_Fault, KeyError, AttributeError, TypeError, ValueError, StopIteration, LookupError, IndexError, _KeyFault, Exception, _BaseFault]
+_FAULT_CACHE = {}
+
+
+def fault_classes():
+    """FAULTS + the builtin exception classes the tree's own stream code names in `except` clauses"""
+    import ast, builtins, testtools.testresult.real as real
+    path = real.__file__
+    if path not in _FAULT_CACHE:
+        out = list(FAULTS)
+        try:
+            tree = ast.parse(open(path).read())
+            classes = ('StreamResult', 'CopyStreamResult', 'StreamFailFast', 'StreamResultRouter', 'StreamTagger', 'StreamToQueue',
+                       'TimestampingStreamResult', 'StreamToDict', 'StreamSummary', '_StreamToTestRecord')
+            for node in ast.walk(tree):
+                if isinstance(node, ast.ClassDef) and node.name in classes:
+                    for h in ast.walk(node):
+                        if isinstance(h, ast.ExceptHandler) and h.type is not None:
+                            for n in ast.walk(h.type):
+                                cls = getattr(builtins, n.id, None) if isinstance(n, ast.Name) else None
+                                if isinstance(cls, type) and issubclass(cls, BaseException) and cls not in out \
+                                        and cls not in (KeyboardInterrupt, SystemExit, GeneratorExit):
+                                    out.append(cls)
+        except (OSError, SyntaxError):
+            pass
+        _FAULT_CACHE[path] = out
+    return _FAULT_CACHE[path]
+
+
 class _ScriptedSink:
     """recording sink of the main router.  When the router calls one of its methods (not from inside another sink's
     method) it performs the next entry of its script for that method: re-entrant router.add_rule(...) calls and/or raise."""
@@ -81,8 +122,14 @@ class _ScriptedSink:
         try:
             for act in acts:
                 if act == 'raise':
+                    # the class is a realisation detail of 'raise' (it cycles through the vocabulary with the position in the
+                    # run); what the property asks: THIS exception object reaches the caller, the event is not delivered again
                     ctx['log'].append(['exc', 'Fault'])
-                    raise _Fault()
+                    classes = ctx['faults']
+                    exc = classes[(ctx['nfaults'] + self.n + ctx['salt']) % len(classes)]('scripted fault')
+                    ctx['nfaults'] += 1
+                    ctx['fault_obj'] = exc
+                    raise exc
                 ctx['log'].append(['radd', act])
                 try:
                     ctx['add'](act)
@@ -124,7 +171,7 @@ class C18(Prop):
             '(25%: same first segment, other rest) is sent again, spread in this order over the script; in another 10% a route rule whose sink is the fallback object (or the sink of a test-id rule) and a test-id rule both match one event. '
             'In half of the cases 1-3 sinks have scripted behaviour at their 1st/2nd startTestRun / stopTestRun / status: they call router.add_rule '
             're-entrantly (with/without do_start_stop_run; fresh or already known sink; 4% bad prefix, 3% unknown policy) and/or raise; the driver '
-            'survives every exception and carries on with the script. '
+            'survives every exception and carries on with the script; what a raising sink raises cycles through a vocabulary of exception classes (KeyError, AttributeError, TypeError, ValueError, StopIteration, LookupError, IndexError, a KeyError subclass, Exception, a BaseException that is not an Exception, plus whatever builtin the tree\'s own stream classes name in an except clause) - the very exception object must reach the caller; in 20% of the cases a sink in a chosen role (route rule, test-id rule, fallback; other rules behind it) raises from status / startTestRun / stopTestRun and the same event is sent again. '
             'thorough adds all configurations with <= 2 rules x <= 3 events from a 6-event alphabet, with start/stop around or across the rules, every event-rule-same event[-rule-same event] history over 4 events x 5 earlier rules x 4 later rules, and '
             'every pair of one-act behaviours (7 kinds) at start/stop/status of the fallback and a rule sink over 5 histories. '
             'non-trivial = at least one rule and one status event, or a round trip; distinct = distinct input S-expression')
@@ -167,7 +214,8 @@ class C18(Prop):
         scripts = inp[3] if len(inp) > 3 else []
         try:
             clock = S.Clock()
-            ctx = {'log': [], 'depth': 0, 'clock': clock, 'scripts': {}}
+            ctx = {'log': [], 'depth': 0, 'clock': clock, 'scripts': {}, 'faults': fault_classes(), 'nfaults': 0,
+                   'salt': len(ops) + sum(len(s[2]) for s in scripts), 'fault_obj': None}
             for n, kind, entries in scripts:
                 ctx['scripts'].setdefault((n, kind), [list(e) for e in entries])
             sinks = {}
@@ -211,8 +259,16 @@ class C18(Prop):
                     else:
                         raise AssertionError(op)
                     results.append('ok')
-                except (AttributeError, TypeError, ValueError, _Fault) as e:
-                    results.append(['raised', 'Fault' if isinstance(e, _Fault) else type(e).__name__])
+                except BaseException as e:
+                    if e is ctx['fault_obj']:
+                        results.append(['raised', 'Fault'])        # the sink's own exception object, unchanged
+                    elif isinstance(e, (AttributeError, TypeError, ValueError)) and not isinstance(e, (KeyboardInterrupt, SystemExit)):
+                        results.append(['raised', type(e).__name__])
+                    elif isinstance(e, (KeyboardInterrupt, SystemExit)):
+                        raise
+                    else:
+                        return ['raised', type(e).__name__]
+                ctx['fault_obj'] = None
                 if ctx['depth'] != 0:
                     return ['raised', 'harness-depth']
                 segments.append(ctx['log'][mark:])
@@ -330,7 +386,35 @@ class C18(Prop):
         for k, (p, c) in enumerate(zip(pos, ctl)):
             ops.insert(p + k, c)
         has_fb, fb_flag = rng.random() < 0.7, rng.random() < 0.7
-        return [has_fb, fb_flag, ops, self.gen_scripts(rng, has_fb, ops, fb_flag) if rng.random() < 0.5 else []]
+        scripts = self.gen_scripts(rng, has_fb, ops, fb_flag) if rng.random() < 0.5 else []
+        if rng.random() < 0.2:
+            # a sink that RAISES from status() (the class cycles through `fault_classes()`), at each position a sink can have - route
+            # rule, test-id rule, fallback -, with other rules around that a second delivery would go to; the same event again
+            # afterwards (later events are unaffected); sometimes it raises from startTestRun / stopTestRun instead
+            seg = rng.choice(SEGS[:3])
+            e = self.gen_event(rng)
+            role = rng.choice(['prefix', 'prefix', 'id', 'fallback'])
+            x = next(nsink)
+            extra = []
+            if role == 'prefix':
+                e[8] = ['some', chars('/'.join([seg] + [rng.choice(SEGS) for _ in range(rng.choice([0, 1, 2]))]))]
+                extra.append(['prefix', x, chars(seg), rng.random() < 0.6, rng.random() < 0.5])
+                if rng.random() < 0.6:
+                    extra.append(['id', next(nsink), e[0], rng.random() < 0.5])
+                has_fb = has_fb or rng.random() < 0.5
+            elif role == 'id':
+                e[8] = rng.choice([None, ['some', chars('zz/0')]])
+                extra.append(['id', x, e[0], rng.random() < 0.5])
+                has_fb = has_fb or rng.random() < 0.5
+            else:
+                e[8] = rng.choice([None, ['some', chars('zz')]])
+                e[0] = ['some', 2]
+                x, has_fb = 0, True
+            kind = rng.choice(['status', 'status', 'status', 'start', 'stop'])
+            tail = [['status', e], ['status', list(e)]] + ([['status', self.gen_event(rng)]] if rng.random() < 0.5 else [])
+            ops = extra + ops + tail if kind == 'status' else extra + ops + tail + rng.choice([['start', 'stop'], ['stop', 'start', 'stop']])
+            scripts = [[x, kind, rng.choice([[['raise']], [[], ['raise']], [['raise'], ['raise']]])]] + [s for s in scripts if (s[0], s[1]) != (x, kind)]
+        return [has_fb, fb_flag, ops, scripts]
 
     def gen_act(self, rng, fresh, known):
         if rng.random() < 0.25:
@@ -409,6 +493,19 @@ class C18(Prop):
                                 ops += [[r2[0], 12] + r2[2:], ['status', e], ['status', e2]]
                             for fb in (True, False):
                                 yield [fb, True, ops + ['stop'], []]
+        # a sink raises from status(): at each position (route rule with / without consuming, test-id rule, fallback), with a test-id
+        # rule and a fallback behind it, for every class of the exception vocabulary (the class cycles with the length of the script:
+        # `pad` filler events in front), followed by the same event again
+        hit = ev(0, 'fail', route='0/1')
+        for pad in range(len(FAULTS) + 3):
+            fill = [['status', ev(2, 'success', route='zz')]] * pad
+            for rules, who in (([['prefix', 10, chars('0'), True, False], ['id', 11, ['some', 0], False]], 10),
+                               ([['prefix', 10, chars('0'), False, True], ['id', 11, ['some', 0], True]], 10),
+                               ([['id', 11, ['some', 0], False]], 11), ([], 0)):
+                for fb in ((True, False) if who else (True,)):
+                    yield [fb, True, rules + ['start'] + fill + [['status', hit], ['status', hit], 'stop'], [[who, 'status', [['raise']]]]]
+            yield [True, True, [['prefix', 10, chars('0'), True, True], 'start'] + fill + [['status', hit], 'stop', 'start', 'stop'],
+                   [[10, 'stop', [['raise']]], [0, 'start', [[], ['raise']]]]]
         # scripted sinks: every pair of one-act behaviours at the first startTestRun / stopTestRun of the fallback and of a rule sink
         acts = [[], ['raise'], [['id', 20, ['some', 1], True]], [['prefix', 21, chars('0'), True, True]], [['id', 22, None, False]],
                 [['id', 23, ['some', 0], True], 'raise'], [['id', 24, ['some', 0], True], ['prefix', 25, chars('1'), False, True]]]
